@@ -172,8 +172,10 @@ def coqchk(props_file, timeout=3000):
     """independent re-check of the compiled Props file and everything it depends on (thorough tier).
     Returns StepResult; ok only if coqchk succeeds and reports no axioms outside the allow-list, no type-in-type,
     no unsafe fixpoints, no assumed positivity."""
-    mod = "TV." + props_file[:-2].replace("/", ".")
-    rc, out, dt = sh(["coqchk", "-o", "-silent", "-Q", ".", "TV", mod], cwd=COQ, timeout=timeout)
+    files = [props_file] if isinstance(props_file, str) else list(props_file)
+    mods = ["TV." + f[:-2].replace("/", ".") for f in files]
+    mod = " ".join(mods)
+    rc, out, dt = sh(["coqchk", "-o", "-silent", "-Q", ".", "TV"] + mods, cwd=COQ, timeout=timeout)
     if rc != 0:
         return StepResult(False, "coqchk failed on %s" % mod, out)
     allow = allowed_axioms()
@@ -190,7 +192,7 @@ def coqchk(props_file, timeout=3000):
             problems.append("%s: %s" % (what, m.group(i).strip()[:200]))
     if problems:
         return StepResult(False, "coqchk: " + "; ".join(problems), out)
-    return StepResult(True, "coqchk -o ok in %.0fs (axioms: %s)" % (dt, ", ".join(axioms) or "none"), out)
+    return StepResult(True, "coqchk -o ok on %d theorem file(s) and everything they depend on in %.0fs (axioms: %s)" % (len(mods), dt, ", ".join(axioms) or "none"), out)
 
 
 def build_driver(name="core"):
